@@ -614,4 +614,59 @@ theorem targetSet_iff {cfg : Cfg Rat} {recs : List (Bytes × Bytes)} {groups : L
     exact ⟨g, hgm, hs.1.symm, by rw [← hs.2.2]⟩
 
 
+/-! ## helper lemmas: the exact protein list of a merged entry -/
+
+
+section
+variable {α : Type} [BEq α] [LawfulBEq α]
+
+theorem sameKey_refl (a : Pep α) : sameKey a a = true := (sameKey_iff a a).mpr rfl
+
+theorem sameKey_congr_right {a b : Pep α} (h : keyOf a = keyOf b) (s : Pep α) : sameKey s a = sameKey s b := by
+  cases h1 : sameKey s a <;> cases h2 : sameKey s b <;> try rfl
+  · rw [sameKey_false_iff] at h1; rw [sameKey_iff] at h2; exact absurd (h2.trans h.symm) h1
+  · rw [sameKey_iff] at h1; rw [sameKey_false_iff] at h2; exact absurd (h1.trans h) h2
+
+/-- the protein list of a merged entry: the protein lists of the forms with its key, concatenated in
+    generation order -/
+theorem mergeFuel_proteins_eq (n : Nat) (l : List (Pep α)) (hn : l.length ≤ n) (e : Pep α)
+    (he : e ∈ mergeFuel n l) :
+    e.proteins = (l.filter fun s => sameKey s e).flatMap (·.proteins) := by
+  induction n generalizing l with
+  | zero =>
+    cases l with
+    | nil => simp [mergeFuel] at he
+    | cons _ _ => simp at hn
+  | succ n ih =>
+    cases l with
+    | nil => simp [mergeFuel] at he
+    | cons p rest =>
+      simp only [mergeFuel, List.mem_cons] at he
+      rcases he with rfl | he
+      · obtain ⟨h1, _, h4⟩ := absorbAll_spec p (rest.filter fun q => sameKey q p)
+        rw [h4]
+        have hc : ∀ s, sameKey s (absorbAll p (rest.filter fun q => sameKey q p)) = sameKey s p :=
+          sameKey_congr_right h1
+        simp only [hc, List.filter_cons, sameKey_refl, if_true, List.flatMap_cons]
+      · have hlen : (rest.filter fun q => !sameKey q p).length ≤ n := by
+          have := List.length_filter_le (fun q => !sameKey q p) rest
+          simp at hn; omega
+        obtain ⟨⟨s0, hs0, hk0, _⟩, _, _⟩ := mem_mergeFuel n _ hlen e he
+        simp only [List.mem_filter, Bool.not_eq_true', sameKey_false_iff] at hs0
+        have hpe : sameKey p e = false := by
+          rw [sameKey_false_iff, hk0]; exact fun h => hs0.2 h.symm
+        rw [ih _ hlen he, List.filter_cons, hpe]
+        simp only [Bool.false_eq_true, if_false, List.filter_filter]
+        congr 1
+        apply List.filter_congr
+        intro s _
+        cases hse : sameKey s e with
+        | false => simp
+        | true =>
+          have : sameKey s p = false := by
+            rw [sameKey_iff] at hse
+            rw [sameKey_false_iff, hse, hk0]; exact hs0.2
+          simp [this]
+end
+
 end Sage.C07
